@@ -69,7 +69,7 @@ func TestVerifC19(t *testing.T) {
 	defer c.Done()
 	ctx := context.Background()
 	c.Rule("C19 twin: random DAGs (1–40 commits, 0–5 parents incl. duplicates, criss-cross pairs, several roots) built with Database.Commit; all ordered pairs; closure-based FindCommonAncestor vs findCommonAncestorUsingParentsList compared on existence and height of the base")
-	n := c.Pick(60, 1500)
+	n := c.Pick(100, 4000)
 	epoch := CommitDateAt(time.UnixMilli(0))
 	pairs, agree, sameAddr, none, asym := 0, 0, 0, 0, 0
 	for i := 0; i < n; i++ {
